@@ -67,7 +67,7 @@ func genC12(t *rapid.T) C12Case {
 	case "usertty":
 		c.Rec = recgen.Tty(t, true)
 	case "execve":
-		c.Rec = recgen.Execve(t, 8)
+		c.Rec = recgen.Execve(t, 14) // two-digit argument keys too
 	case "sockaddr":
 		c.Rec, c.Want = recgen.Sockaddr(t)
 	case "user":
